@@ -350,6 +350,10 @@ class Runner:
             h = c19_history.run(c, self.bad)
             info["history_edits"] = h["edits"]
             info["history_refused"] = h["refused"]
+            # abstract-repr listing / sequence round trip of the detuning maps of this case
+            from harness import c19_repr
+
+            info["history_repr_checks"] = c19_repr.run(c, self.bad)
         return dict(out=out, info=info), self.viol
 
     # ------------------------------------------------------------------
